@@ -2980,7 +2980,8 @@ RefCountableRef MessageField :: GetItemAtAsRefCountableRef(uint32 index) const
    switch(_state)
    {
       case FIELD_STATE_ARRAY:  return GetArray()->GetItemAtAsRefCountableRef(index);
-      case FIELD_STATE_INLINE: return GetInlineItemAsRefCountableRef();
+      case FIELD_STATE_INLINE: if (_dataType == DATA_TYPE_REF) return GetInlineItemAsRefCountableRef();  // an inline item of any other type mustn't be read as a RefCountableRef!
+                               break;
       default:                 /* do nothing */ break;
    }
    return GetDefaultObjectForType<RefCountableRef>();
